@@ -39,6 +39,9 @@ func (s BatchedPrivateTokenRequestState) FinalizeTokens(tokenResponseEnc []byte)
 	reader := cryptobyte.String(tokenResponseEnc)
 
 	l, offset := quicwire.ConsumeVarint(tokenResponseEnc)
+	if offset < 0 || l > uint64(len(tokenResponseEnc)-offset) {
+		return nil, fmt.Errorf("invalid batch token response list encoding")
+	}
 	reader.Skip(offset)
 
 	encodedElements := make([]byte, l)
